@@ -607,6 +607,9 @@ func (e *Env) index(xv, iv TV, x Expr) (TV, error) {
 	switch u := xv.Typ.Underlying().(type) {
 	case *types.Slice:
 		h := e.vc.heap(e.st, elemHeapName(u.Elem()), arraySort(SInt, arraySort(SInt, e.vc.sortOf(u.Elem()))))
+		if xv.T.Sort != SSlice || !strings.HasPrefix(h.Sort, "(Array Int (Array ") {
+			return TV{}, fmt.Errorf("index of %s: value of slice type %s has sort %s (element heap %s of sort %s)", exprString(x), xv.Typ, xv.T.Sort, h.S, h.Sort)
+		}
 		e.vc.noteHeapType(elemHeapName(u.Elem()), u.Elem(), "elem")
 		if !strings.HasPrefix(string(h.Sort), "(Array Int (Array") {
 			return TV{}, fmt.Errorf("internal: element heap %s has sort %s (term %s) in %s", elemHeapName(u.Elem()), h.Sort, h.S, exprString(x))
@@ -752,6 +755,15 @@ func (e *Env) call(x *ECall) (TV, error) {
 			return TV{}, fmt.Errorf("unboxptr: second argument must be a type name string")
 		}
 		obj := e.pkg.Scope().Lookup(lit.V)
+		if k := strings.LastIndex(lit.V, "."); k > 0 && obj == nil {
+			// "pkg.T": a type of a directly imported package (by package name)
+			for _, imp := range e.pkg.Imports() {
+				if imp.Name() == lit.V[:k] {
+					obj = imp.Scope().Lookup(lit.V[k+1:])
+					break
+				}
+			}
+		}
 		tn, ok := obj.(*types.TypeName)
 		if !ok {
 			return TV{}, fmt.Errorf("unboxptr: unknown type %s", lit.V)
@@ -761,6 +773,27 @@ func (e *Env) call(x *ECall) (TV, error) {
 		bx, ub := quote("box:"+key), quote("unbox:"+key)
 		vc.declare("box:"+key, fmt.Sprintf("(declare-fun %s (Int) Int)\n(declare-fun %s (Int) Int)", bx, ub))
 		return TV{T(SInt, "(%s %s)", ub, v.T.S), pt}, nil
+	case "box":
+		// box(x): the interface value that holds x (of x's static type); the
+		// same term a conversion of x to an interface type produces
+		if len(x.Args) != 1 {
+			return TV{}, fmt.Errorf("box takes one argument")
+		}
+		v, err := e.eval(x.Args[0])
+		if err != nil {
+			return TV{}, err
+		}
+		if v.Typ == nil {
+			return TV{}, fmt.Errorf("box of untyped value %s", exprString(x.Args[0]))
+		}
+		if _, isIface := v.Typ.Underlying().(*types.Interface); isIface {
+			return v, nil
+		}
+		key := typeKey(v.Typ)
+		bx, ub := quote("box:"+key), quote("unbox:"+key)
+		srt := vc.sortOf(v.Typ)
+		vc.declare("box:"+key, fmt.Sprintf("(declare-fun %s (%s) Int)\n(declare-fun %s (Int) %s)", bx, srt, ub, srt))
+		return TV{T(SInt, "(%s %s)", bx, v.T.S), types.NewInterfaceType(nil, nil)}, nil
 	case "typeof":
 		v, err := e.eval(x.Args[0])
 		if err != nil {
